@@ -6,6 +6,7 @@ import ast
 
 from ..execmodel import ENGINE_MODES, ExecHooks, R, make_session, sget, sset, sowner, sowners
 from ..interp import explore
+from ..model import norm
 from ..values import Const, Obj, Seq, Str, Sym, Tup, Lst, tagof
 from .common import site_loc, traces
 
@@ -526,7 +527,44 @@ def rule_row_format_by_cursor_class(ctx):
     ctx.floor("C05.i cursor classes", n, 4)
 
 
+def rule_rewind_only_with_new_result(ctx):
+    """C05.j: the fetch position goes back to the start only together with the result it indexes: a method that stores None / 0
+    into the fetch index also replaces (or drops) the result table on that path — rewinding alone hands every row out again."""
+    prog = ctx.prog
+    m = prog.mod("cursor")
+    idx, tab = R().index, R().table
+    n = 0
+    for q, f in m.functions.items():
+        if not q.startswith(CUR[1] + ".") or q.endswith(".setter"):
+            continue
+        resets, tabs = [], []
+        for a in ast.walk(f):
+            tgts = a.targets if isinstance(a, ast.Assign) else [a.target] if isinstance(a, (ast.AnnAssign, ast.AugAssign)) else []
+            for t in tgts:
+                if isinstance(t, ast.Attribute) and t.attr == idx and isinstance(a, (ast.Assign, ast.AnnAssign)) and isinstance(a.value, ast.Constant) \
+                        and a.value.value in (None, 0):
+                    resets.append(a)
+                if isinstance(t, ast.Attribute) and t.attr == tab:
+                    tabs.append(a)
+            if isinstance(a, ast.Call) and isinstance(a.func, ast.Name) and a.func.id == "setattr" and len(a.args) == 3 and isinstance(a.args[1], ast.Constant):
+                if a.args[1].value == idx and isinstance(a.args[2], ast.Constant) and a.args[2].value in (None, 0):
+                    resets.append(a)
+                if a.args[1].value == tab:
+                    tabs.append(a)
+        if not resets:
+            continue
+        n += 1
+        ok = bool(tabs)
+        ctx.ob("C05.j", f"{q}: resets the fetch index only together with the result table", ok, m.loc(resets[0]))
+        if not ok:
+            ctx.violation("C05.j", "cursor", q, f"fetch index rewound without replacing the result ({norm(resets[0])[:50]})", m.loc(resets[0]),
+                          f"`{q}` sets the fetch position back to the start but leaves the result table attached: the next fetch hands out rows "
+                          f"that were already fetched (every row is to be returned exactly once)")
+    ctx.inventory["C05.j methods that reset the fetch index"] = n  # may be 0 (state replaced wholesale by a fresh holder object); positive control in the self-validation
+
+
 RULES = [
+    ("C05.j", rule_rewind_only_with_new_result, ("quick", "thorough")),
     ("C05.i", rule_row_format_by_cursor_class, ("quick", "thorough")),
     ("C05.h", rule_whole_slice, ("quick", "thorough")),
     ("C05.g", rule_fresh_cursor, ("quick", "thorough")),
